@@ -25,6 +25,9 @@ type planGenOpts struct {
 	chunkModes bool
 	forceDV    bool
 	wide       bool
+	widePct    int
+	// bigValuesPct: percentage of cases whose schema allows stored values > 64 KiB (0 = generator default)
+	bigValuesPct int
 }
 
 func genPlanCase(t *rapid.T, o planGenOpts) planCase {
@@ -34,8 +37,18 @@ func genPlanCase(t *rapid.T, o planGenOpts) planCase {
 	so.ForceDV = o.forceDV
 	so.ForceStored = true
 	s := gen.GenSchema(t, so)
+	if o.bigValuesPct > 0 && gen.Chance(t, "bigValuesForced", o.bigValuesPct) {
+		s.BigValues = true
+		for i := range s.Fields {
+			s.Fields[i].Stored = true
+		}
+	}
+	wp := o.widePct
+	if wp == 0 {
+		wp = 2
+	}
 	po := gen.PlanOpts{MaxDepth: 3, MaxChildren: 4, ChunkModes: o.chunkModes,
-		Batch: gen.BatchOpts{MaxDocs: 8, AllowEmpty: true, AllowWide: o.wide, WidePct: 2}}
+		Batch: gen.BatchOpts{MaxDocs: 8, AllowEmpty: true, AllowWide: o.wide, WidePct: wp}}
 	p := s.GenPlan(t, "p", po)
 	if gen.Chance(t, "uniform", 50) {
 		s.Uniform(p)
